@@ -20,7 +20,7 @@ def invariant(*clauses, **kw):
 class Contract:
 	def __init__(self, qualname, types=None, requires=(), ensures=(), raises=None, returns=None, yields=None,
 	             loops=None, writes=(), inline=False, instances=None, assume_after=None, prop=None,
-	             ghost=None, trusted=False, ensures_raise=None, note=None, may_raise=(), lemmas=(), axioms=(), after_loop=None, before_loop=None, hints=None, self_fields=None):
+	             ghost=None, trusted=False, ensures_raise=None, note=None, may_raise=(), lemmas=(), axioms=(), after_loop=None, before_loop=None, hints=None, self_fields=None, defines=()):
 		self.qualname = qualname
 		self.types = types or {}
 		self.requires = list(requires)
@@ -42,6 +42,7 @@ class Contract:
 		self.lemmas = list(lemmas)           # instantiated lemma statements (clauses) assumed at entry
 		self.after_loop = after_loop or {}
 		self.hints = hints or {}
+		self.defines = list(defines)   # definitional clauses (result == F(args) for a spec function F that is DEFINED as this function's value): assumed at call sites only
 		self.self_fields = self_fields or {}   # for __init__ contracts: fields the constructor creates
 		self.before_loop = before_loop or {}
 		self.axioms = tuple(axioms)          # names of definitional axioms (spec.AXIOMS) added to the hypotheses
@@ -230,3 +231,18 @@ class _F32(TypeSpec):
 
 
 Float32 = _F32()
+
+
+
+class TSpec(TypeSpec):
+	"""TypeSpec for a plain TypeDesc"""
+
+	def __init__(self, T):
+		self.T = T
+
+	def make(self, name, st, eng):
+		return self.T.fresh(name)
+
+	@property
+	def desc(self):
+		return self.T
